@@ -264,6 +264,7 @@ void vf_run_case(Ctx& c, uint64_t index) {
   bool alias_mode = c.mode == "alias";
   ho.max_nodes = (size_t)std::min<uint64_t>(120, kMaxSlots / 3);
   ho.binext = true;
+  ho.int64 = ARDUINOJSON_USE_LONG_LONG != 0;
   int steps = (int)(r.chance(1, 20) ? r.range(300, 1500) : r.range(10, 200));
   if (alias_mode) steps = (int)r.range(3, 40);
   CaseRun run(c, ho.ndocs, ho.nrefs, r, c.mode.rfind("c06", 0) == 0);
